@@ -1,5 +1,5 @@
 //! C04 - striping is a lossless, backend-independent rearrangement of the sequence.
-use lightmotif::abc::{Alphabet, Dna, Protein, Symbol};
+use lightmotif::abc::{Alphabet, Dna, Protein};
 use lightmotif::num::{PositiveLength, U1, U16, U2, U32, U4};
 use lightmotif::pli::{Pipeline, Stripe};
 use lightmotif::seq::{EncodedSequence, StripedSequence, SymbolCount};
